@@ -254,6 +254,45 @@ Definition sys_new (c : syscfg) : sys :=
   mk_sys multi (option_map (fun r => rl_new r t0) rate)
          (map (fun '(tb, l) => mk_mbar 0 l 0 (ap_new tb) None) bars).
 
+(* state after a run *)
+Fixpoint sys_exec (s : sys) (ops : list (N * N * bop)) : outcome sys :=
+  match ops with
+  | [] => Ok s
+  | (now, i, o) :: r =>
+      match sys_step s now i o with
+      | Panic k => Panic k
+      | Ok (s', _) => sys_exec s' r
+      end
+  end.
+
+(** * A draw target attached late: ProgressBar::set_draw_target (progress_bar.rs:443-447)
+
+    The bar is created on ProgressDrawTarget::hidden() and receives the calls [pre]; then
+    `set_draw_target(term_like[_with_hz](..))` replaces the target by one created at that instant
+    [t0]; then it receives the calls [ops].
+    - On a hidden target `drawable()` is None (draw_target.rs:205-206): nothing is ever painted.
+      Everything a call does on the bar's side - position, texts, the bar's OWN position limiter,
+      the tracker notifications - does not depend on the target, so the hidden phase is the run
+      on an unthrottled target with the frames erased ([hide]).
+    - `set_draw_target` on a hidden (or TermLike) target paints nothing (`disconnect`,
+      draw_target.rs:211-227) and swaps the target: the new target's limiter is FRESH (created at
+      [t0]), the bar's position limiter is NOT - it keeps whatever the calls [pre] left of it. *)
+Definition hide (o : sout) : sout :=
+  match o with Ok (re, _) => Ok (re, None) | Panic k => Panic k end.
+
+Definition sys_attach (s : sys) (rate : option N) (now : N) : sys :=
+  mk_sys (s_multi s) (option_map (fun r => rl_new r now) rate) (s_bars s).
+
+(* configuration as for [sys_new]: the clock at TARGET creation [t0] is the attach instant *)
+Definition late_run (c : syscfg) (pre ops : list (N * N * bop)) : list sout :=
+  let '(multi, rate, t0, bars) := c in
+  let s0 := sys_new (multi, None, t0, bars) in
+  map hide (sys_run s0 pre) ++
+  match sys_exec s0 pre with
+  | Ok s1 => sys_run (sys_attach s1 rate t0) ops
+  | Panic _ => []
+  end.
+
 (** * Correspondence entry point *)
 
 Definition frame_eqb (a b : frame) : bool :=
@@ -266,11 +305,13 @@ Definition sout_eqb (a b : sout) : bool :=
   | _, _ => false
   end.
 
-(* a case: configuration, the calls (absolute clock, bar index, operation), and what was
-   observed on the implementation after each call *)
-Definition c05_check (c : syscfg * list (N * N * bop) * list sout) : bool :=
-  let '(cfg, ops, obs) := c in
-  list_eqb sout_eqb (sys_run (sys_new cfg) ops) obs.
+(* a case: configuration, the calls made while the bar was still on a hidden target (empty for
+   all but the late-target stream of the harness; [late_run c [] ops = sys_run (sys_new c) ops],
+   LimiterSysProofs.late_run_nil), the calls (absolute clock, bar index, operation), and what
+   was observed on the implementation after each call of [pre ++ ops] *)
+Definition c05_check (c : syscfg * list (N * N * bop) * list (N * N * bop) * list sout) : bool :=
+  let '(cfg, pre, ops, obs) := c in
+  list_eqb sout_eqb (late_run cfg pre ops) obs.
 
 (** * Specification vocabulary used by the theorems (props/C05.v) *)
 
